@@ -118,6 +118,17 @@ func (c *callCtx) use(vs ...any) {
 }
 
 func useIter[T any](c *callCtx, it *fun.Iterator[T]) {
+	if c.i%2 == 1 {
+		// the consumer-in-one-goroutine, shutdown-in-another shape: Close overlaps the iterator's
+		// first read (the deadline only ends a read that blocks for want of items)
+		done := make(chan struct{})
+		rctx, cancel := context.WithTimeout(c.ctx, 5*time.Millisecond)
+		go func() { defer close(done); _, _ = it.ReadOne(rctx) }()
+		_ = it.Close()
+		<-done
+		cancel()
+		return
+	}
 	for k := 0; k < 3; k++ {
 		if _, err := it.ReadOne(c.ctx); err != nil {
 			break
